@@ -1,4 +1,5 @@
 //! Independent reference models (DESIGN.md §4).  Nothing in here calls zerv.
+pub mod bump;
 pub mod calendar;
 pub mod pep440;
 pub mod render;
